@@ -50,9 +50,38 @@ QUICK_GOALS = {"d11-handler-first", "d11-main-first", "d11b-handler-first", "d11
 CRITICAL = {"BadBrokerResponse", "OfferUndecodable", "RelayRejected", "PCFail", "AnswerFail", "DCTimerFire", "RelayDialFail", "NoOffer"}
 
 
-def mk_plan(name, capacity, steps, seed):
-    return {"name": name, "capacity": capacity, "pattern": "suffix", "allow": True, "seed": seed, "steps": steps,
+def mk_plan(name, capacity, steps, seed, pattern="suffix", allow=True):
+    return {"name": name, "capacity": capacity, "pattern": pattern, "allow": allow, "seed": seed, "steps": steps,
             "epilogue": True, "wait_ms": 40000}
+
+
+# Rejection classes of runSession's relay-URL test, replayed with AllowNonTLSRelay = FALSE so that the hostname
+# rule and the scheme rule are exercised separately (a URL whose host is inside the pattern but whose scheme is not
+# wss; a host outside; an unparsable URL ...).  (pattern, [chunks of classes, one session each]); "empty" is the
+# operator's own relay (accepted and served).  Every chunk is one proxy process.
+REJECT_QUICK = [("suffix", [["in_ws", "out_wss", "unparsable"], ["in_https", "upper_wss", "out_ws"],
+                            ["out_inpath", "ui_in_at_out", "opaque"], ["empty", "in_ws", "empty"]])]
+REJECT_THOROUGH = REJECT_QUICK + [
+    ("any", [["in_ws", "in_https", "out_ws"], ["unparsable", "out_ws", "empty"]]),          # host always passes "$": scheme rule alone
+    ("exact", [["sub_wss", "glue_wss", "upper_wss"], ["in_ws", "ui_in_at_out", "opaque"]]),  # host rule of an exact pattern
+]
+
+
+def reject_plans(chk, quick):
+    plans = []
+    for pattern, chunks in (REJECT_QUICK if quick else REJECT_THOROUGH):
+        classes = sorted(set(c for ch in chunks for c in ch))
+        g = pr.dump_graph(chk, "Gen_reject.cfg", Pattern='"%s"' % pattern, Classes=pr.tla_set(classes))
+        for i, chunk in enumerate(chunks):
+            goal = []
+            for k, c in enumerate(chunk, 1):
+                goal.append('Offer("%s","good","real")' % c)
+                goal += ["RelayAccept(%d)" % k, "RelayEnd(%d)" % k, "HandlerReleaseTake(%d)" % k] if c == "empty" else ['RelayRejected("%s")' % c, "MainReleaseTake"]
+            steps = g.path(goal, rot=chk.seed - 1)
+            if steps is None:
+                raise vlib.Inconclusive("vacuity: Gen_reject (pattern %s) has no behaviour for the classes %s" % (pattern, chunk))
+            plans.append(mk_plan("reject-%s-%d-n%d" % (pattern, i, 1 + (chk.seed + i) % 2), 1 + (chk.seed + i) % 2, steps, chk.seed, pattern=pattern, allow=False))
+    return plans
 
 
 def score(steps):
@@ -103,6 +132,7 @@ def gen_plans(chk, quick):
     if steps is None:
         raise vlib.Inconclusive("vacuity: no behaviour of Gen_phantom takes the phantom-session goal")
     plans.append(mk_plan("phantom-stale-load-n9", 9, steps, chk.seed))
+    plans += reject_plans(chk, quick)
     graphs = {}
     for cap in (1, 2):
         g = pr.dump_graph(chk, "Gen_small.cfg", N=cap, MaxNoOffer=1 if cap == 1 else 0)
@@ -210,6 +240,11 @@ def context(events, upto=None):
     kinds = sorted(set(e.get("kind") for e in evs if e.get("ev") == "rs.exit" and e.get("s") == s and e.get("kind")))
     if any(e.get("ev") == "rs.ondc" and e.get("s") == s for e in evs):
         kinds.append("ondc")
+    if "rejected" in kinds or "badurl" in kinds:
+        # which rejection class: the relay-URL class of the offer of that session
+        for e in evs:
+            if e.get("ev") == "resp" and e.get("kind") == "offer" and e.get("s") == s:
+                kinds.append("class:%s" % e.get("cls"))
     return "+".join(kinds) or "none"
 
 
@@ -259,7 +294,10 @@ def judge(out, pid="C16"):
         "recorded execution is not a behaviour of the model: first unexplained event #%s %s" % (idx, json.dumps(e))
 
 
-def run(chk, args):
+def run(chk, args, side=None):
+    """side: optional callable run in a thread next to the real-time replays (the extension parts wired in at
+    the end of this file); it starts only after behaviour generation, because vlib.tlc is not thread-safe and
+    the main thread uses it until then."""
     chk.known.extend(KNOWN)
     quick = chk.tier == "quick"
     binary = pr.build()
@@ -274,8 +312,20 @@ def run(chk, args):
         mc.join()
         raise
     chk.note("%d behaviours to replay; longest estimated %.0fs" % (len(plans), max(pr.cost_s(p["steps"]) for p in plans)))
+    side_thread = None
+    if side is not None:
+        def _side():
+            try:
+                side()
+            except vlib.Inconclusive as e:
+                chk.fail(str(e))
+            except Exception:  # noqa
+                import traceback
+                chk.fail("internal error in an extension part:\n" + traceback.format_exc())
+        side_thread = threading.Thread(target=_side)
+        side_thread.start()
     longest = max(pr.cost_s(p["steps"]) for p in plans)
-    outs = pr.run_plans(binary, TEST, plans, parallel=18, timeout=longest + 120)
+    outs = pr.run_plans(binary, TEST, plans, parallel=22, timeout=longest + 120)
     chk.note("replays done (slowest %.0fs)" % max(o.wall for o in outs))
     results = [None] * len(outs)
 
@@ -291,6 +341,8 @@ def run(chk, args):
         for t in ths[k:k + 8]:
             t.join()
     mc.join()
+    if side_thread is not None:
+        side_thread.join()
     for n in box["notes"]:
         chk.note(n)
     for r in box["tlc"]:
@@ -416,9 +468,13 @@ def run(chk, args):
             return c16_nat.replay(chk, rp)
         return _run_core(chk, args)
     ext = {"periodic", "nat"}
-    if only is None or only - ext:
+    if only is None:
+        # the extension parts run in a thread next to the real-time replays of the core part
+        from checks import c16_nat
+        return _run_core(chk, args, side=lambda: c16_nat.run_parts(chk, args))
+    if only - ext:
         _run_core(chk, args)
-    if only is None or only & ext:
+    if only & ext:
         from checks import c16_nat
         if only is None or ext <= only:
             c16_nat.run_parts(chk, args)
